@@ -45,6 +45,9 @@ def generate(rng, tier):
                  "tilt": [rng.uniform(-3, 3), rng.uniform(-3, 3)], "power": rng.uniform(-3, 3),
                  "piston": rng.uniform(-5, 5), "noise": rng.choice([0.0, 0.01, 0.3, 1.0])},
         "latcaled": rng.random() < 0.8,
+        # an interferogram without lateral calibration (dx = 0, the constructor's default) that
+        # stays that way until a step calibrates it
+        "uncal": rng.random() < 0.12,
     }
     if init["dx"] <= 0:
         init["dx"] = 1.0
@@ -186,13 +189,14 @@ def execute(plan):
     init = plan["init"]
     z = build_data(np, init)
     dx0 = init["dx"]
-    ifg = Interferogram(z.copy(), dx=dx0 if init["latcaled"] else 0.0, wavelength=0.6328)
-    if not init["latcaled"]:
+    uncal = bool(init.get("uncal"))
+    ifg = Interferogram(z.copy(), dx=dx0 if (init["latcaled"] and not uncal) else 0.0, wavelength=0.6328)
+    if not init["latcaled"] and not uncal:
         # an un-calibrated interferogram is brought to a defined spacing first
         ifg.latcal(dx0)
     mdl = _Model()
     mdl.shape = tuple(z.shape)
-    mdl.dx = float(dx0)
+    mdl.dx = 0.0 if uncal else float(dx0)
     mdl.valid = ~np.isnan(z)
     mdl.scale = float(np.nanmax(np.abs(z))) if mdl.valid.any() else 1.0
     mdl.scale = max(mdl.scale, 1e-300)
@@ -365,6 +369,8 @@ def execute(plan):
             elif k == "filter":
                 if not (mdl.valid.all() and min(mdl.shape) >= 2):
                     raise _Skip("filter needs fully valid data, both axes >= 2")
+                if not mdl.dx > 0:
+                    raise _Skip("filter needs a lateral calibration")
                 nyq = 1.0 / (2.0 * ifg.dx)
                 fc = op["fc"]
                 fc = tuple(f * nyq for f in fc) if isinstance(fc, list) else fc * nyq
@@ -630,6 +636,10 @@ def simplifiers(plan):
     if not init["latcaled"]:
         p = copy.deepcopy(plan)
         p["init"]["latcaled"] = True
+        yield p
+    if init.get("uncal"):
+        p = copy.deepcopy(plan)
+        p["init"]["uncal"] = False
         yield p
     if init["nan"]["kind"] != "none":
         p = copy.deepcopy(plan)
